@@ -128,3 +128,229 @@ Proof.
   intros c c' H1 H2 H3 t. unfold spec_status. rewrite H2. destruct (order c); auto.
   rewrite (spec_along_ext c c'); auto.
 Qed.
+
+(* ================= at most once ================= *)
+From VV Require Import Sched.Inv.
+From Coq Require Import Permutation.
+
+Lemma at_most_once : forall c e0 st0 clk s t,
+  wf_cfg c -> junk_free e0 -> reachable c e0 st0 clk s -> execs st0 s t <= 1.
+Proof.
+  intros c e0 st0 clk s t Hwf J R. destruct (inv_reachable _ _ _ _ _ Hwf J R) as [I _].
+  unfold execs.
+  destruct (inv_entry _ _ _ _ _ I t) as [[(w & a & b & k & Hw & E) _]|[(_ & St & _)|[_ [Ex _]]]].
+  - pose proof (inv_wp _ _ _ _ _ I w Hw) as O. rewrite E in O. simpl in O. lia.
+  - lia.
+  - lia.
+Qed.
+
+(* ================= reading side of a SKIPPED decision ================= *)
+Lemma decide_waiting_skipped : forall c e t e',
+  decide_waiting c e t = (RSkipped, e') ->
+  exists d, In d (hdeps c t) /\ is_st e FAILED d || is_st e SKIPPED d = true.
+Proof.
+  intros c e t e' H. unfold decide_waiting in H.
+  destruct (existsb _ (hdeps c t)) eqn:X.
+  - apply existsb_exists in X. exact X.
+  - destruct (forallb _ _); discriminate.
+Qed.
+
+Lemma decide_skipped : forall c e t e',
+  ~ In t (hdeps c t) -> decide c e t = (RSkipped, e') ->
+  exists d, In d (hdeps c t) /\ (est (e d) = Some FAILED \/ est (e d) = Some SKIPPED).
+Proof.
+  intros c e t e' N H.
+  assert (G : forall e2, (forall d, d <> t -> e2 d = e d) ->
+              (exists d, In d (hdeps c t) /\ is_st e2 FAILED d || is_st e2 SKIPPED d = true) ->
+              exists d, In d (hdeps c t) /\ (est (e d) = Some FAILED \/ est (e d) = Some SKIPPED)).
+  { intros e2 E [d [Hd B]]. exists d; split; auto.
+    assert (d <> t) by (intro; subst; auto). unfold is_st, stat in B. rewrite E in B by auto.
+    destruct (est (e d)) as [[]|]; simpl in B; try discriminate; auto. }
+  unfold decide in H.
+  destruct (is_st e DONE t && negb (absent e t) || is_st e WAITING t && negb (absent e t)).
+  - destruct (existsb _ (deps c t)); [discriminate|].
+    destruct (is_st e DONE t).
+    + destruct (existsb _ (deps c t)); [discriminate|].
+      destruct (existsb _ (hdeps c t)).
+      * apply decide_waiting_skipped in H. eapply G; [|exact H].
+        intros; apply set_status_other; auto.
+      * destruct (last_end_time c e t); [destruct (esc (e t)); [destruct (Nat.leb _ _)|]|]; discriminate.
+    + apply decide_waiting_skipped in H. eapply G; [|exact H]. auto.
+  - destruct (existsb _ (deps c t)); [discriminate|].
+    rewrite is_st_set_same in H. simpl in H.
+    apply decide_waiting_skipped in H. eapply G; [|exact H].
+    intros; apply set_status_other; auto.
+Qed.
+
+(* ================= statuses agree with the specification (empty initial environment) ================= *)
+Section FromEmpty.
+Variable c : cfg.
+Variable st0 : nat -> nat.
+Variable clk : nat.
+Hypothesis Hwf : wf_cfg c.
+
+Let e0 : nat -> entry := fun _ => no_entry.
+Let I := inv c e0 st0 clk.
+
+Definition spec_inv (s : state) : Prop :=
+  (forall t, In t (F c s) -> spec_status c t <> Some SKIPPED)
+  /\ (forall t, t < ntasks c -> settled c s t -> est (env s t) = spec_status c t).
+
+Lemma L_status : forall s t, I s -> In t (L c s) ->
+  est (env s t) = None \/ est (env s t) = Some WAITING.
+Proof.
+  intros s t [Ic _] Hl.
+  destruct (inv_entry _ _ _ _ _ Ic t) as [[P _]|[(_ & _ & _ & HL & _)|[[S _] _]]].
+  - apply pubs_in_F in P. exfalso.
+    exact (NoDup_app_disj _ _ t (inv_nodup _ _ _ _ _ Ic) Hl P).
+  - apply HL; auto.
+  - contradiction.
+Qed.
+
+Lemma final_settled : forall s d st, I s -> est (env s d) = Some st -> is_final st = true ->
+  settled c s d.
+Proof.
+  intros s d st Hi E Fi. split; intro H.
+  - destruct (L_status _ _ Hi H) as [X|X]; rewrite X in E; [discriminate|].
+    injection E as <-. discriminate.
+  - destruct Hi as [Ic _]. destruct (inv_flight _ _ _ _ _ Ic d H) as [X _].
+    rewrite X in E. injection E as <-. discriminate.
+Qed.
+
+Lemma hdep_facts : forall t d, t < ntasks c -> In d (hdeps c t) ->
+  In d (deps c t) /\ d <> t /\ d < ntasks c.
+Proof.
+  intros t d Ht Hd. destruct Hwf as (ord & O & ND & IN & TOPO & HD & _).
+  pose proof (HD _ _ Hd) as Hdd. apply IN in Ht. destruct (TOPO _ _ Hdd Ht) as [Hin Hp].
+  repeat split; auto; [intro; subst; lia|apply IN; auto].
+Qed.
+
+Lemma spec_by_ok : forall t, t < ntasks c -> spec_status c t <> Some SKIPPED ->
+  spec_status c t = Some (if ok (oc c t) then DONE else FAILED).
+Proof. intros t Ht. apply (spec_rule c t Hwf Ht). Qed.
+
+Lemma spec_inv_step : forall s tid now s',
+  I s -> spec_inv s -> step c s tid now = Some s' -> spec_inv s'.
+Proof.
+  intros s tid now s' Hi [SF SS] H.
+  pose proof Hi as [Ic Ia].
+  assert (LT : forall t, In t (L c s ++ F c s) -> t < ntasks c) by (intros; eapply inv_lt; eauto).
+  destruct (step_kinds _ _ _ _ _ _ _ _ Hwf Hi H)
+    as [Ee _ _ El Pf _|w t q t0 _ _ _ _ -> El Pf _|t todo acc nb r e' Em D ->
+        |w t t0 t1 _ _ _ -> El Ef|w t a b k _ _ -> El Pf].
+  - (* frame *)
+    split.
+    + intros t Ht. apply SF. eapply Permutation_in; [apply Permutation_sym; exact Pf|exact Ht].
+    + intros t Ht [S1 S2]. rewrite Ee. apply SS; auto. rewrite El in S1. split; auto.
+      intro X. apply S2. eapply Permutation_in; eauto.
+  - (* get *)
+    split.
+    + intros x Hx. apply SF. eapply Permutation_in; [apply Permutation_sym; exact Pf|exact Hx].
+    + intros x Hx [S1 S2]. simpl. apply SS; auto. rewrite El in S1. split; auto.
+      intro X. apply S2. eapply Permutation_in; eauto.
+  - (* decide *)
+    destruct (decide_modes c s t todo acc nb r e' Em D) as [HL M]. fold (decide_state s t todo acc nb r e') in M.
+    assert (Ht : t < ntasks c) by (apply LT; rewrite HL; rewrite !in_app_iff; simpl; auto).
+    assert (HtL : In t (L c s)) by (rewrite HL, in_app_iff; simpl; auto).
+    assert (OTH : forall x, x <> t -> e' x = env s x) by (intros; eapply decide_other; eauto).
+    assert (SUB : forall x, x <> t -> ~ In x (acc ++ todo) -> ~ In x (L c s)).
+    { intros x Hx N X. apply N. rewrite HL in X. rewrite in_app_iff in *. simpl in X.
+      intuition congruence. }
+    destruct M as [(-> & El & Ef & Es)|[(-> & El & Ef & Es)|[(-> & El & Ef & Es)|(-> & El & Ef & -> & Es)]]].
+    + (* waiting *)
+      split; [intros x Hx; apply SF; rewrite <- Ef; exact Hx|].
+      intros x Hx [S1 S2]. rewrite El in S1. rewrite Ef in S2.
+      assert (x <> t) by (intro; subst; auto). simpl. rewrite OTH by auto. apply SS; auto. split; auto.
+    + (* pending *)
+      split.
+      * intros x Hx. rewrite Ef in Hx. destruct Hx as [<-|Hx]; [|apply SF; auto].
+        intro Sk. apply (spec_rule c t Hwf Ht) in Sk. destruct Sk as [d [Hd B]].
+        destruct (hdep_facts t d Ht Hd) as (Hdd & Hne & Hdn).
+        pose proof (decide_pending_deps _ _ _ _ (inv_junk _ _ _ _ _ Ic) D d Hdd Hne) as Fd.
+        destruct (decide_pending_hdeps _ _ _ _ D d Hd Hne) as [N1 N2].
+        apply final_at_iff in Fd. destruct Fd as (st & Est & Fst).
+        pose proof (final_settled s d st Hi Est Fst) as Sd.
+        rewrite <- (SS d Hdn Sd) in B. unfold stat in N1, N2.
+        destruct B as [B|B]; rewrite B in N1, N2; congruence.
+      * intros x Hx [S1 S2]. rewrite El in S1. rewrite Ef in S2. simpl in S2.
+        assert (x <> t) by (intro; subst; auto). simpl. rewrite OTH by auto. apply SS; auto. split; auto.
+    + (* skipped *)
+      split; [intros x Hx; apply SF; rewrite <- Ef; exact Hx|].
+      intros x Hx [S1 S2]. rewrite El in S1. rewrite Ef in S2. simpl.
+      destruct (Nat.eq_dec x t) as [->|Hne]; [|rewrite OTH by auto; apply SS; auto; split; auto].
+      rewrite Es. symmetry. apply (spec_rule c t Hwf Ht).
+      assert (N : ~ In t (hdeps c t)) by (intro X; destruct (hdep_facts t t Ht X) as (_ & Y & _); auto).
+      destruct (decide_skipped _ _ _ _ N D) as [d [Hd B]]. exists d; split; auto.
+      destruct (hdep_facts t d Ht Hd) as (Hdd & Hne & Hdn).
+      assert (Sd : settled c s d) by (destruct B as [B|B]; eapply final_settled; eauto).
+      rewrite <- (SS d Hdn Sd). exact B.
+    + (* none: impossible, the task has never been DONE *)
+      exfalso. destruct (L_status _ _ Hi HtL) as [X|X]; rewrite X in Es; discriminate.
+  - (* start *)
+    split; [intros x Hx; apply SF; rewrite <- Ef; exact Hx|].
+    intros x Hx [S1 S2]. rewrite El in S1. rewrite Ef in S2. simpl. apply SS; auto. split; auto.
+  - (* publish *)
+    assert (HtF : In t (F c s)) by (eapply Permutation_in; [apply Permutation_sym; exact Pf|left; auto]).
+    assert (Ht : t < ntasks c) by (apply LT; rewrite in_app_iff; auto).
+    split.
+    + intros x Hx. apply SF. eapply Permutation_in; [apply Permutation_sym; exact Pf|right; exact Hx].
+    + intros x Hx [S1 S2]. rewrite El in S1. simpl.
+      destruct (Nat.eq_dec x t) as [->|Hne].
+      * rewrite publish_same. simpl. symmetry. apply spec_by_ok; auto.
+      * rewrite publish_other by auto. apply SS; auto. split; auto.
+        intro X. apply (Permutation_in _ Pf) in X. destruct X as [X|X]; auto.
+Qed.
+
+Lemma spec_inv_init : spec_inv (init c e0 st0 clk).
+Proof.
+  split.
+  - intros t Ht. rewrite init_F in Ht. destruct Ht.
+  - intros t Ht [S1 _]. exfalso. apply S1.
+    destruct (init_mp c e0 st0 clk Hwf) as (ord & O & M).
+    destruct Hwf as (ord' & O' & _ & IN & _). unfold L. rewrite M, O'. apply IN; auto.
+Qed.
+
+Lemma spec_inv_reachable : forall s, reachable c e0 st0 clk s -> I s /\ spec_inv s.
+Proof.
+  intros s [sched H].
+  assert (J : junk_free e0) by (intros t; discriminate).
+  eapply (run_ind_inv c (fun s => I s /\ spec_inv s)); [| |exact H].
+  - intros s1 tid now s2 [A B] St. split; [eapply inv_step; eauto|eapply spec_inv_step; eauto].
+  - split; [apply inv_init; auto|apply spec_inv_init].
+Qed.
+
+Lemma final_statuses_empty : forall s, reachable c e0 st0 clk s -> mp s = MReturned ->
+  forall t, t < ntasks c ->
+    est (env s t) = spec_status c t
+    /\ execs st0 s t = (match spec_status c t with Some SKIPPED => 0 | _ => 1 end).
+Proof.
+  intros s R M t Ht. destruct (spec_inv_reachable s R) as [Hi [_ SS]].
+  pose proof (returned_all_settled _ _ _ _ _ Hi M t) as St.
+  pose proof (SS t Ht St) as E. split; auto.
+  pose proof (spec_unfold c t Hwf Ht) as U. unfold execs.
+  destruct (settled_entry _ _ _ _ _ _ Hi St) as [(S0 & _ & [X|X])|[S1 (a & b & _ & _ & Ee)]].
+  - simpl in X. rewrite X in E. rewrite U in E. discriminate.
+  - rewrite X in E. rewrite <- E. lia.
+  - rewrite Ee in E. simpl in E. rewrite <- E. rewrite S1. destruct (ok (oc c t)); lia.
+Qed.
+
+End FromEmpty.
+
+Lemma final_statuses : forall c st0 clk s, wf_cfg c ->
+  reachable c (fun _ => no_entry) st0 clk s -> mp s = MReturned ->
+  forall t, t < ntasks c ->
+    est (env s t) = spec_status c t
+    /\ execs st0 s t = (match spec_status c t with Some SKIPPED => 0 | _ => 1 end).
+Proof. intros c st0 clk s Hwf. apply final_statuses_empty; auto. Qed.
+
+Lemma schedule_independent :
+  forall c c' st0 clk s st0' clk' s', wf_cfg c -> wf_cfg c' ->
+  ntasks c' = ntasks c -> deps c' = deps c -> hdeps c' = hdeps c -> order c' = order c -> oc c' = oc c ->
+  reachable c (fun _ => no_entry) st0 clk s -> reachable c' (fun _ => no_entry) st0' clk' s' ->
+  mp s = MReturned -> mp s' = MReturned -> forall t, t < ntasks c -> est (env s t) = est (env s' t).
+Proof.
+  intros c c' st0 clk s st0' clk' s' W W' En Ed Eh Eo Ec R R' M M' t Ht.
+  destruct (final_statuses c st0 clk s W R M t Ht) as [-> _].
+  destruct (final_statuses c' st0' clk' s' W' R' M' t ltac:(lia)) as [-> _].
+  symmetry. apply spec_status_ext; auto.
+Qed.
